@@ -26,7 +26,9 @@ def in_class(d):
 
 def run(ctx):
     ctx.level = "model_checking"
-    ctx.cov["rule"] = ("one evaluation = one call (metainfo.New | NewInfo v1/v2 | NewPieces | Session.AddTorrent | AddTorrent+Start) of "
+    ctx.cov["rule"] = ("one evaluation = one call (metainfo.New | NewInfo v1/v2 | NewPieces | Session.AddTorrent | AddTorrent+Start | "
+                       "low-limit session: AddTorrent, AddURI(http, scripted server), resume record + NewSession + Start, "
+                       "AddURI(magnet) + metadata peer + allocation) of "
                        "the real code on one generated or mutated input, judged by TLC; non-trivial = the call accepted the input or "
                        "ended in an event; distinct = distinct (site, projection of the accepted description, event)")
     ctx.assumptions += [
@@ -34,14 +36,23 @@ def run(ctx):
         "runaway allocation = live heap above 1 GiB (piece construction, start) / 3 GiB (parser) or allocated bytes above 16 MiB + 256 x input",
         "piece construction and Start are run on representatives of every distinct accepted projection (PL, N, lengths, padding); "
         "in the quick tier the projections with a negative or >= 2^62 length are a seeded sample",
-        "resume-load and peer-supplied info go through metainfo.NewInfo (sites ni1/ni2 = resume versions 1/2, new = version 3 flags); "
-        "the bbolt / metadata-extension plumbing around it is not driven"]
+        "resume versions 1/2 are driven at metainfo.NewInfo only (sites ni1/ni2); the resume-record (version 3, bbolt record + NewSession + Start), "
+        "magnet (info dictionary served by a scripted ut_metadata peer, then allocation + piece construction) and file paths of a session with "
+        "lowered limits (MaxPieces 3, MaxTorrentSize 64 KiB) are driven on one representative of every distinct accepted projection "
+        "and on a seeded sample of 24 info dictionaries that the parser refuses",
+        "URL path: AddURI against scripted servers with TorrentAddHTTPTimeout = 500 ms; hang = the call has not returned after time-out + 5 s"]
     # 1. design level (in parallel with generation and the driver)
     mc_err = []
 
     def mc():
         try:
             ctx.tlc_mc("MC_Metainfo", "MC_Metainfo.cfg", timeout=1800, workers=4)
+            # HTTP source: the deadline covers the whole exchange and the read is capped, whatever the server does;
+            # the design whose deadline covers the head only must fail (vacuity guard of the model)
+            ctx.tlc_mc("MetainfoFetch", "MC_MetainfoFetch.cfg", timeout=600, workers=2)
+            ok, _ = ctx.tlc_mc("MetainfoFetch", "MC_MetainfoFetch_hdronly.cfg", timeout=600, workers=2, expect_ok=False)
+            if ok:
+                raise vlib.MachineryError("MC_MetainfoFetch_hdronly.cfg (time-out covers the head only) was expected to violate Bounded")
             if not ctx.quick():
                 ctx.tlc_mc("MC_Metainfo", "MC_Metainfo_big.cfg", timeout=3000, workers=4)
         except Exception as ex:  # re-raised in the main thread
@@ -69,7 +80,7 @@ def run(ctx):
     scr = ctx.path("drv", "x")
     r = ctx.run_drv(drv, ["-mode", "parent", "-cases", cases_path, "-out", tp, "-scratch", os.path.dirname(scr), "-seed", str(ctx.seed),
                           "-mut", str(ctx.pick(1, 2)), "-workers", str(ctx.pick(8, 10)), "-reps", str(ctx.pick(1, 2)),
-                          "-maxbad", str(ctx.pick(6, 40)), "-cpums", str(ctx.pick(1000, 1500)), "-rejsample", str(ctx.pick(20, 20))],
+                          "-maxbad", str(ctx.pick(6, 40)), "-cpums", str(ctx.pick(1000, 1500)), "-rejsample", str(ctx.pick(40, 20))],
                     timeout=ctx.pick(1800, 3600))
     stats = json.loads(r.stdout.strip().splitlines()[-1])
     ctx.extra["driver"] = stats
@@ -82,7 +93,7 @@ def run(ctx):
 
 
 def judge(ctx, tp, lines, stats):
-    keep = ("op", "id", "site", "acc", "pl", "n", "lens", "pad", "priv", "size", "lim", "maxn", "maxsz", "st", "steps", "ev", "where", "akb", "ikb")
+    keep = ("op", "id", "site", "acc", "pl", "n", "lens", "pad", "priv", "size", "lim", "maxn", "maxsz", "st", "steps", "ev", "where", "akb", "ikb", "ret", "ms", "tmo")
     slim = ctx.path("slim.ndjson")
     vlib.write_ndjson(slim, [{k: d[k] for k in keep} for d in lines])
     res = ctx.tlc_validate("Trace_Metainfo", slim, ntraces=len(lines), timeout=1500, heap="6g")
